@@ -18,7 +18,13 @@ What happens on every run
                    something that already exists = no effect); content-hash + mtime + mode snapshot of
                    the whole sandbox outside O/G is identical before and after; a run with a source
                    directory inside O raises before the first mutating attempt.
-  faults     : the n-th mutating attempt raises OSError, for sampled (quick) / all (thorough) n;
+  regenerate : after an ordinary run the output directory is what a user may have made of it: each top-level entry
+               in turn (then random subsets, second-level entries, all of them) replaced by a symbolic link to a
+               directory / file outside, dot-entries added, files of the graph directory replaced by links; FORD runs
+               again; (a) and (b) as above - the model resolves every attempt through the links that survive the
+               clean-up (`runPhys`), the recorder through the real file system.
+  faults     : the n-th mutating attempt raises OSError, for sampled (quick) / all (thorough) n - also each removal
+               of the clean-up of a regeneration in which every entry of the old output is a link;
                oracle (b) again, and the attempts made are among those of the model's fault-free run
                (no handler does file-system work of its own).
 """
@@ -43,6 +49,8 @@ from .common import Driver, Report, lean_prove
 PROP = "C19"
 US = "\x1f"
 FINDING_ESCAPE = "C19-copy-subdir-escape"
+FINDING_WIPE = "C19-wipe-failure-ignored"
+FINDING_GLINK = "C19-graphdir-stale-link"
 
 sys.dont_write_bytecode = True
 
@@ -52,7 +60,7 @@ sys.dont_write_bytecode = True
 
 _STATE = {"rec": None, "installed": False}
 _WRITE_FLAGS = os.O_WRONLY | os.O_RDWR | os.O_CREAT | os.O_TRUNC | os.O_APPEND
-_FOLLOW = {"wr", "chmod", "utime", "chown", "truncate"}
+_FOLLOW = {"wr", "chmod", "utime", "chown", "truncate", "spawnwr"}
 
 
 class Injected(OSError):
@@ -68,6 +76,7 @@ class Recorder:
         self.busy = False
         self.count = 0
         self.injected = False
+        self.fault_event: dict | None = None  # the attempt that was made to fail
 
     def phys(self, p, follow: bool, dir_fd=None) -> str:
         p = os.fsdecode(p)
@@ -101,6 +110,7 @@ class Recorder:
         self.count += 1
         if self.fault_at is not None and self.count == self.fault_at:
             self.injected = True
+            self.fault_event = ev
             raise Injected(errno.EIO, "C19 harness: injected failure", ph)
 
 
@@ -355,6 +365,106 @@ def build_sandbox(sb: Path, scn: dict) -> dict:
     G = Path(os.path.realpath(proj / opts["graph_dir"])) if "graph_dir" in opts else None
     return {"W": W, "proj": proj, "O": O, "G": G, "opts": opts, "out_raw": out_raw,
             "srcs": [Path(os.path.realpath(proj / s)) for s in scn["src"]]}
+
+
+def stale_plan(O: Path, spec: dict) -> list:
+    """Which entries of the (already generated) output directory are replaced by symbolic links that point
+    outside it.  Derived from what the directory really contains - no list of names is built in:
+      (the harness also sweeps over *every* top-level entry alone: explicit `plan` = [[name, d|f]])
+      some : every top-level entry with probability 0.35, every second-level entry with probability 0.12
+      all  : every top-level entry;   deep : second-level entries only (probability 0.4)"""
+    mode = spec["mode"]
+    rng = random.Random(spec.get("seed", 0))
+    top, deep = [], []
+    if O.is_dir() and not O.is_symlink():
+        for e in sorted(os.scandir(O), key=lambda e: e.name):
+            if e.name.startswith(".") or e.is_symlink():
+                continue
+            top.append((e.name, "d" if e.is_dir() else "f"))
+            if e.is_dir():
+                for e2 in sorted(os.scandir(e.path), key=lambda e: e.name):
+                    if not e2.is_symlink():
+                        deep.append((e.name + "/" + e2.name, "d" if e2.is_dir() else "f"))
+    if mode == "all":
+        return top
+    if mode == "deep":
+        return [x for x in deep if rng.random() < 0.4]
+    chosen = [x for x in top if rng.random() < 0.35]
+    names = {c[0] for c in chosen}
+    return chosen + [x for x in deep if x[0].split("/")[0] not in names and rng.random() < 0.12]
+
+
+def mutate_output(lay: dict, spec: dict) -> list[str]:
+    """The user's doings between two runs: entries of the output directory (which belongs to FORD: anything may be
+    left in it) are replaced by symbolic links to directories / files *outside* it (`work/published/pub<n>/...`, an
+    older published copy), dot-entries are added, files of the graph directory are replaced by links.  The plan
+    is computed once from what the directories contain and stored in the spec (`plan`, `gplan`), so that the
+    mutation can be re-applied before fault runs and in replays."""
+    O, W = lay["O"], lay["W"]
+    pub = W / "published" / f"pub{spec.get('n', 0)}"
+    made = []
+    # start from the complete output of the ordinary run (kept aside outside the sandbox), whatever earlier
+    # regenerations / fault runs in this sandbox have left: every regeneration is an experiment of its own
+    if O.is_file() or O.is_symlink():
+        O.unlink()
+    elif O.is_dir():
+        shutil.rmtree(O)
+    if lay.get("pristine") and Path(lay["pristine"]).is_dir():
+        shutil.copytree(lay["pristine"], O, symlinks=True)
+    else:
+        O.mkdir(parents=True, exist_ok=True)
+    if "plan" not in spec:
+        spec["plan"] = [list(x) for x in stale_plan(O, spec)]
+    for i, (rel, kind) in enumerate(spec["plan"]):
+        at = O / rel
+        if at.is_symlink() or at.is_file():
+            at.unlink()
+        elif at.is_dir():
+            shutil.rmtree(at)
+        at.parent.mkdir(parents=True, exist_ok=True)
+        tgt = pub / (kind + "_" + rel.replace("/", "__"))
+        if kind == "d":
+            (tgt / "sub").mkdir(parents=True, exist_ok=True)
+            for n, body in (("keep.txt", "do not touch\n"), ("index.html", "<html>published last year</html>\n"),
+                            ("sub/index.html", "<html>sub</html>\n")):
+                if not (tgt / n).exists():
+                    (tgt / n).write_text(body)
+        else:
+            tgt.parent.mkdir(parents=True, exist_ok=True)
+            if not tgt.exists():
+                tgt.write_text("published file\n")
+        os.symlink(str(tgt) if (i + spec.get("seed", 0)) % 2 == 0 else os.path.relpath(tgt, at.parent), at)
+        made.append(rel)
+    G = lay.get("G0")
+    if spec.get("gdir") and G is not None and G.is_dir() and not under(str(G), O):
+        # the graph directory is never cleaned: links left in it, under the names of the files found there
+        # (`<graph>.svg`, `<graph>.gv`, and `<graph>` itself, the name graphviz writes the source to)
+        if "gplan" not in spec:
+            rng = random.Random(spec.get("seed", 0))
+            names = sorted(n for n in os.listdir(G) if not os.path.islink(G / n) and (G / n).is_file())
+            spec["gplan"] = [os.path.splitext(n)[0] if rng.random() < 0.34 else n
+                             for n in rng.sample(names, min(len(names), spec["gdir"]))]
+        for n in spec["gplan"]:
+            at = G / n
+            tgt = pub / ("g_" + n)
+            tgt.parent.mkdir(parents=True, exist_ok=True)
+            if not tgt.exists():
+                tgt.write_text("precious\n")
+            if at.is_file() or at.is_symlink():
+                at.unlink()
+            os.symlink(str(tgt), at)
+            made.append("G:" + n)
+    if spec.get("dots"):
+        (pub / "gitdir").mkdir(parents=True, exist_ok=True)
+        if not (pub / "gitdir" / "HEAD").exists():
+            (pub / "gitdir" / "HEAD").write_text("ref: refs/heads/gh-pages\n")
+        for name, make in ((".git", lambda p: os.symlink(str(pub / "gitdir"), p)), (".nojekyll", lambda p: p.write_text("")),
+                           (".cache", lambda p: (p.mkdir(), os.symlink(str(pub / "gitdir" / "HEAD"), p / "head"))),
+                           (".lnk.txt", lambda p: os.symlink(str(pub / "gitdir" / "HEAD"), p))):
+            if not os.path.lexists(O / name):
+                make(O / name)
+                made.append(name)
+    return made
 
 
 def snapshot(root: Path) -> dict:
@@ -647,21 +757,52 @@ def escape_targets(scn, lay) -> list[str]:
     return res
 
 
-def classify(scn, lay, fails) -> str | None:
-    targets = escape_targets(scn, lay)
-    if not targets:
+def fail_paths(f: dict) -> list[str]:
+    paths = []
+    if "event" in f:
+        paths.append(f["event"]["path"])
+    for c in f.get("changed", []):
+        paths.append(c["path"])
+    return paths
+
+
+def classify_one(scn, lay, r, f) -> str | None:
+    """The known class (known_findings/C19.json) a single failure of the oracle falls into, or None."""
+    paths = fail_paths(f)
+    if not paths or "refus" in f["why"]:
         return None
+    O, G = lay["O"], lay["G"]
+    # a symbolic link left in the (never cleaned) graph directory under the name of a file FORD writes for a graph
+    # it saves in this run: <graph_dir>/<imgfile> or <graph_dir>/<imgfile>.svg
+    if G is not None and not under(str(G), O):
+        saved = {x.split(US)[1] for x in (r["res"].get("site") or []) if x.startswith("graphfile" + US)}
+        written = {os.path.join(str(G), n) for n in saved} | {os.path.join(str(G), n + ".svg") for n in saved}
+        gl = {t for at, t, _d, _k in r["oldlinks"] if at in written}
+        if gl and all(p in gl for p in paths):
+            return FINDING_GLINK
+    # fault run: the attempt that failed was the removal of a symbolic link of the old output directory (during
+    # the clean-up, the only time FORD removes anything), and the objected paths lie under what that link points to
+    fe = r["rec"].fault_event
+    if fe is not None and fe["kind"] == "rm":
+        kept = [t for at, t, _d, k in r["oldlinks"] if k and under(at, O)]
+        if kept and all(any(under(p, t) for t in kept) for p in paths):
+            return FINDING_WIPE
+    # a page-level copy_subdir item whose lexical target leaves the output directory
+    targets = escape_targets(scn, lay)
+    if targets and all(any(under(p, t) for t in targets) for p in paths):
+        return FINDING_ESCAPE
+    return None
+
+
+def classify(scn, lay, r, fails) -> dict:
+    """Partition the failures of one run by known class (None = not a known finding)."""
+    parts: dict = {}
     for f in fails:
-        paths = []
-        if "event" in f:
-            paths.append(f["event"]["path"])
-        for c in f.get("changed", []):
-            paths.append(c["path"])
-        if not paths or "refus" in f["why"]:
-            return None
-        if not all(any(under(p, t) for t in targets) for p in paths):
-            return None
-    return FINDING_ESCAPE
+        # a snapshot difference lists several paths: each one is classified on its own
+        singles = [dict(f, changed=[c]) for c in f["changed"]] if len(f.get("changed", [])) > 1 and "event" not in f else [f]
+        for g in singles:
+            parts.setdefault(classify_one(scn, lay, r, g), []).append(g)
+    return parts
 
 
 # ----------------------------------------------------------------------------------------------
@@ -719,15 +860,43 @@ def run_scenario(scn: dict, base: Path, tables: dict, fault_at: int | None = Non
         sb.mkdir(parents=True)
         lay = build_sandbox(sb, scn)
         lay["sb"] = sb
+        if scn.get("regen"):
+            # a regeneration: there has been an ordinary run before (replay path; otherwise the sandbox of that
+            # run is reused)
+            run_ford(lay["proj"] / "proj.md", Recorder(sb))
     else:
         lay = reuse
         sb = lay["sb"]
+    if scn.get("regen") and "pristine" not in lay:
+        # the output directory as the ordinary run has just produced it
+        keep = sb.parent / f"pristine-{sb.name}"
+        if lay["O"].is_dir() and not keep.exists():
+            shutil.copytree(lay["O"], keep, symlinks=True)
+        lay["pristine"] = str(keep)
+    lay = dict(lay)
+    lay.setdefault("G0", lay["G"])
+    stale = mutate_output(lay, scn["regen"]) if scn.get("regen") else []
+    # the graph directory is what the configured path physically names when the run starts (an entry of the old
+    # output directory may have been replaced by a link)
+    if "graph_dir" in lay["opts"]:
+        lay["G"] = Path(os.path.realpath(lay["proj"] / lay["opts"]["graph_dir"]))
     before = snapshot(sb)
+    O, G = lay["O"], lay["G"]
     rec = Recorder(sb, fault_at)
     res = run_ford(lay["proj"] / "proj.md", rec)
     after = snapshot(sb)
-    reqs = [model_request(v, scn, lay, before, res["site"], tables) for v in ("repaired", "asIs")]
-    return {"scn": scn, "lay": lay, "rec": rec, "res": res, "before": before, "after": after, "reqs": reqs}
+    # symbolic links lying in the old output directory / the graph directory: where, physical target, is that a
+    # directory, did the attempt to remove it fail (injected fault)
+    fe = rec.fault_event
+    oldlinks = [(p, os.path.realpath(os.path.join(os.path.dirname(p), v[1])), None,
+                 bool(fe and fe["kind"] == "rm" and fe["path"] == p))
+                for p, v in sorted(before.items())
+                if v[0] == "l" and ((under(p, O) and p != str(O)) or (G is not None and under(p, G) and p != str(G)))]
+    fs = SnapFS(before)
+    oldlinks = [(p, t, fs.kind(t) == "d" or (not under(t, sb) and os.path.isdir(t)), k) for p, t, _d, k in oldlinks]
+    reqs = [model_request(v, scn, lay, before, res["site"], tables, oldlinks) for v in ("repaired", "asIs")]
+    return {"scn": scn, "lay": lay, "rec": rec, "res": res, "before": before, "after": after, "reqs": reqs,
+            "stale": stale, "oldlinks": oldlinks}
 
 
 # model_request looks at the live tree for outkind / missing ancestors; it must therefore be
@@ -745,7 +914,7 @@ class SnapFS:
         return e[0]
 
 
-def model_request(variant, scn, lay, pre, site, tables):
+def model_request(variant, scn, lay, pre, site, tables, oldlinks=()):
     W, proj, O, G = lay["W"], lay["proj"], lay["O"], lay["G"]
     fs = SnapFS(pre)
     sb = str(lay["sb"])
@@ -786,6 +955,8 @@ def model_request(variant, scn, lay, pre, site, tables):
     for p in sorted(pre):
         if not under(p, O):
             f.append(US.join(["pre", p]))
+    for at, target, isdir, kept in oldlinks:
+        f.append(US.join(["old", at, target, "1" if isdir else "0", "1" if kept else "0"]))
     ford_dir = common.REPO / "ford"
     for d in tables["libDirs"]:
         f.append(US.join(["lib"] + (walk_listing(ford_dir / d) or [])))
@@ -986,20 +1157,74 @@ def run(tier: str, seed: int, replay: str | None = None) -> int:
     else:
         scns = gen_scenarios(rng, n_scn)
 
-    hist = {"out": {}, "gdir": {}, "pages": {}, "pre_out": {}, "links": {}, "flags": {}, "prim_kinds": {}, "outcome": {}}
+    hist = {"out": {}, "gdir": {}, "pages": {}, "pre_out": {}, "links": {}, "regen": {}, "stale_links": {}, "flags": {},
+            "prim_kinds": {}, "outcome": {}}
     samples = []
     distinct = set()
     n_corr_bad = n_oracle_fail = n_runs = n_fault_runs = 0
     variant_seen = set()
     t_start = time.time()
+    phase: dict = {}
     with common.scratch_dir("ford-c19-") as base:
         base = Path(os.path.realpath(base)) / "x" / "y"
         base.mkdir(parents=True)
         runs = [run_scenario(s, base, tables) for s in scns]
+        phase["scenarios"] = round(time.time() - t_start, 1)
+        # ---- regenerations: the output directory exists from an earlier run and the user has left things in it
+        #      (entries replaced by symbolic links to outside, dot-entries); links in the graph directory.
+        #      thorough: every top-level entry on its own
+        regen_runs = []
+        if not replay:
+            rrng = random.Random(seed * 31337 + 5)
+            ok = [r for r in runs if r["scn"]["out"] not in REFUSING and r["res"]["exc"] is None]
+            # (1) one scenario that creates as many kinds of output entries as the options allow; then every
+            #     top-level entry of its output directory, one at a time, is what was left behind as a link
+            sweep = {"id": len(scns), "out": rrng.choice([o for o in OUT_PLACEMENTS if o not in REFUSING and o != "in_src"]),
+                     "src": ["./src"], "gdir": "none", "graph": False, "search": True, "incl_src": True, "externalize": True,
+                     "media": 1, "css": True, "mathjax": 1, "favicon": True,
+                     "pages": rrng.choice(["simple", "collide", "dotdot_inside"]), "pre_out": "absent",
+                     "srcset": rrng.choice([0, 2]), "links": 0}
+            sr = run_scenario(sweep, base, tables)
+            runs.append(sr)
+            if sr["res"]["exc"] is None:
+                O_ = str(sr["lay"]["O"])
+                top = sorted((os.path.basename(p), "d" if v[0] == "d" else "f") for p, v in sr["after"].items()
+                             if os.path.dirname(p) == O_ and v[0] in ("d", "f"))
+                plans = [[[name, kind]] for name, kind in top]
+                if tier == "quick":
+                    # one run for the regular files (a surviving link to a file cannot make the run stop early, so it
+                    # cannot hide what another one does) and one for the sub-directories that the source creates in
+                    # one and the same loop (generated table outDirs); every other directory on its own
+                    files = [[n, k] for n, k in top if k == "f"]
+                    loop = [[n, k] for n, k in top if k == "d" and n in tables.get("outDirs", [])]
+                    plans = [[[n, k]] for n, k in top if k == "d" and [n, k] not in loop] + [pl for pl in (loop, files) if pl]
+                for j, plan in enumerate(plans):
+                    spec = {"mode": "one", "plan": plan, "n": j, "seed": j, "dots": j % 5 == 0}
+                    regen_runs.append(run_scenario(dict(sweep, regen=spec), base, tables, reuse=sr["lay"]))
+                # ... and all of them at once (this is also the run whose removals are made to fail one by one)
+                spec = {"mode": "all", "n": len(top), "seed": rrng.randrange(1000), "dots": True}
+                regen_runs.append(run_scenario(dict(sweep, regen=spec), base, tables, reuse=sr["lay"]))
+            # (2) random subsets (top level and one level down, everything, dot-entries) on other scenarios;
+            #     (3) links in a graph directory that is not inside the output directory
+            n_other = 3 if tier == "quick" else 40
+            withg = [r for r in ok if r["scn"]["graph"] and r["lay"]["G"] is not None and not under(str(r["lay"]["G"]), r["lay"]["O"])
+                     and any(x.startswith("graphfile" + US) for x in (r["res"]["site"] or []))]
+            picks_g = rrng.sample(withg, min(len(withg), 1 if tier == "quick" else 12))
+            rest = [r for r in ok if r not in picks_g]
+            picks_o = rrng.sample(rest, min(len(rest), n_other))
+            for j, r in enumerate(picks_o + picks_g):
+                spec = {"mode": "some" if r in picks_g else ("some", "all", "deep", "some")[j % 4], "n": 100 + j,
+                        "seed": rrng.randrange(1000), "dots": j % 2 == 0, "gdir": 3 if r in picks_g else 0}
+                regen_runs.append(run_scenario(dict(r["scn"], regen=spec), base, tables, reuse=r["lay"]))
+                for n in spec.get("gplan", []):  # the sandbox is used again (fault runs): take the links in G away
+                    if (r["lay"]["G"] / n).is_symlink():
+                        (r["lay"]["G"] / n).unlink()
+        runs += regen_runs
         n_runs = len(runs)
+        phase["regenerations"] = round(time.time() - t_start, 1)
         # ---- fault injection on a few scenarios: same sandbox, n-th attempt raises
         fault_runs = []
-        cands = [r for r in runs if r["scn"]["out"] not in REFUSING and r["res"]["exc"] is None]
+        cands = [r for r in runs if not r["scn"].get("regen") and r["scn"]["out"] not in REFUSING and r["res"]["exc"] is None]
         cands.sort(key=lambda r: -len(r["rec"].events))
         budget_s = 35 if tier == "quick" else 900
         t_f = time.time()
@@ -1020,12 +1245,29 @@ def run(tier: str, seed: int, replay: str | None = None) -> int:
                 fr = run_scenario(r["scn"], base, tables, fault_at=n, reuse=r["lay"])
                 fr["fault_at"] = n
                 fault_runs.append(fr)
+        # ---- a failure of each removal of the clean-up: the regeneration in which *every* top-level entry of the old
+        #      output directory is a link (the removals are then one `unlink` per link)
+        allr = next((r for r in regen_runs if r["scn"]["regen"]["mode"] == "all" and r["res"]["exc"] is None), None)
+        if allr is not None:
+            evs = allr["rec"].events
+            n_rm = next((i for i, e in enumerate(evs) if e["kind"] not in ("rmtree", "rm", "rmdir")), len(evs))
+            idx = list(range(2, n_rm + 1))
+            rng.shuffle(idx)  # quick tier: as many as fit into the budget, a different selection per seed
+            t_f = time.time()
+            for n in idx:
+                if time.time() - t_f > (8 if tier == "quick" else 300):
+                    break
+                fr = run_scenario(allr["scn"], base, tables, fault_at=n, reuse=allr["lay"])
+                fr["fault_at"] = n
+                fault_runs.append(fr)
         n_fault_runs = len(fault_runs)
+        phase["faults"] = round(time.time() - t_start, 1)
         # ---- model
         allruns = runs + fault_runs
         answers = drv.batch([q for r in allruns for q in r["reqs"]])
         for i, r in enumerate(allruns):
             r["model"] = {"repaired": answers[2 * i], "asIs": answers[2 * i + 1]}
+        phase["model"] = round(time.time() - t_start, 1)
         # ---- compare + oracle
         for r in allruns:
             scn, lay, rec, res = r["scn"], r["lay"], r["rec"], r["res"]
@@ -1037,13 +1279,17 @@ def run(tier: str, seed: int, replay: str | None = None) -> int:
             if not is_fault:
                 for key in ("out", "gdir", "pages", "pre_out", "links"):
                     hist[key][str(scn.get(key, 0))] = hist[key].get(str(scn.get(key, 0)), 0) + 1
+                rg = scn["regen"]["mode"] if scn.get("regen") else "first-run"
+                hist["regen"][rg] = hist["regen"].get(rg, 0) + 1
+                nl = "0" if not r["oldlinks"] else ("1-3" if len(r["oldlinks"]) <= 3 else "4+")
+                hist["stale_links"][nl] = hist["stale_links"].get(nl, 0) + 1
                 for key in ("graph", "search", "incl_src", "externalize", "media", "css", "mathjax", "favicon"):
                     if scn[key]:
                         hist["flags"][key] = hist["flags"].get(key, 0) + 1
                 oc = "refused" if res["exc"] and not rec.events else ("ok" if res["exc"] is None else "error")
                 hist["outcome"][oc] = hist["outcome"].get(oc, 0) + 1
                 if len(real) > 0:
-                    distinct.add(common.digest([scn["out"], scn["gdir"], scn["pages"], real and [x.replace(str(lay["sb"]), "") for x in real]]))
+                    distinct.add(common.digest([scn["out"], scn["gdir"], scn["pages"], scn.get("regen", {}).get("plan"), real and [x.replace(str(lay["sb"]), "") for x in real]]))
             case = slim(scn, lay, {"fault_at": r.get("fault_at"), "exception": res["exc"]})
             # (a) correspondence
             m_rep, m_asis = r["model"]["repaired"], r["model"]["asIs"]
@@ -1093,8 +1339,10 @@ def run(tier: str, seed: int, replay: str | None = None) -> int:
             fails = oracle(scn, lay, rec, r["before"], r["after"], res)
             if fails:
                 n_oracle_fail += 1
-                rep.failing_input(dict(case, failures=fails[:6], attempts=len(rec.events)), classify(scn, lay, fails))
+                for cls, fs_ in classify(scn, lay, r, fails).items():
+                    rep.failing_input(dict(case, failures=fs_[:6], attempts=len(rec.events)), cls)
     drv.close()
+    phase["compare"] = round(time.time() - t_start, 1)
     rep.coverage.update(
         evaluations=ev_micro + n_runs + n_fault_runs,
         distinct_nontrivial=len(distinct),
@@ -1107,13 +1355,16 @@ def run(tier: str, seed: int, replay: str | None = None) -> int:
         guard_micro_cases=ev_guard,
         scenario_runs=n_runs, fault_injection_runs=n_fault_runs,
         variant_decided=sorted(variant_seen),
+        phase_seconds_cumulative=phase,
         placement_histogram=hist,
         generated_tables=tables,
     )
     rep.assumptions += [
         "symbolic links inside copied trees (media_dir, copy_subdir directories, page files, the old output directory) are "
-        "generated and modelled as dereferenced by the copy (generated constant copytreeSymlinks); link loops, links inside "
-        "graph_dir and links created by a third party during the run are not",
+        "generated and modelled as dereferenced by the copy (generated constant copytreeSymlinks); symbolic links left in the "
+        "output directory of an earlier run (every top-level entry in turn, subsets, second level) and in the graph directory "
+        "(under the names of graph files) are generated and modelled (Cfg.old / survivors / runPhys); link loops, links to "
+        "directories inside graph_dir and links created by a third party during the run are not",
         "graphviz `dot -O` is modelled by its documented effect (writes <file>.svg next to <file>); worker processes "
         "(parallel > 0) are not observed by the in-process hook: scenarios use parallel: 0",
         "creation of missing ancestor directories of output_dir/graph_dir (mkdir parents=True) and a mkdir attempt on a path "
